@@ -26,7 +26,7 @@ class ClaimsRegistry:
 
     def check_value(self, claim_name: str, value: Any) -> None:
         option = self.options.get(claim_name)
-        if option:
+        if option is not None:
             allow_blank = option.get("allow_blank")
             if not allow_blank and value == "":
                 raise InvalidClaimError(claim_name)
